@@ -144,24 +144,29 @@ Record c07_variant := {
   vr_exo_accumulate : bool;  (* false: start = num_faces ; true: start += num_faces            *)
   vr_exo_deg2rad : bool;     (* true: np.deg2rad before _lonlat_rad_to_xyz ; false: degrees fed in *)
   vr_exo_read_all : bool;    (* false: _read_exodus keeps only the last connect block         *)
-  vr_strip_helpers : bool    (* true: _encode_ugrid works on a copy and drops the helper objects
+  vr_strip_helpers : bool;   (* true: _encode_ugrid works on a copy and drops the helper objects
                                 (inverse_indices, fill_value_mask, IntervalIndex, DataFrame) from attrs *)
+  vr_scrip_pad : bool        (* true: _encode_scrip repeats the last corner of shorter faces and
+                                _to_ugrid turns repeated trailing corners back into padding *)
 }.
 
 (* the code as it is (after /repo commits 0ec27eb7 "template copied" and ce96ede9 "deg2rad") *)
 Definition c07_faithful : c07_variant :=
   {| vr_copy_template := true; vr_exo_fill := -1; vr_exo_accumulate := false;
-     vr_exo_deg2rad := true; vr_exo_read_all := false; vr_strip_helpers := false |}.
+     vr_exo_deg2rad := true; vr_exo_read_all := false; vr_strip_helpers := false;
+     vr_scrip_pad := false |}.
 
 (* the code before those two commits (kept: the theorems say what each repair buys) *)
 Definition c07_before_fixes : c07_variant :=
   {| vr_copy_template := false; vr_exo_fill := -1; vr_exo_accumulate := false;
-     vr_exo_deg2rad := false; vr_exo_read_all := false; vr_strip_helpers := false |}.
+     vr_exo_deg2rad := false; vr_exo_read_all := false; vr_strip_helpers := false;
+     vr_scrip_pad := false |}.
 
 (* all known repairs applied *)
 Definition c07_repaired : c07_variant :=
   {| vr_copy_template := true; vr_exo_fill := FILL; vr_exo_accumulate := true;
-     vr_exo_deg2rad := true; vr_exo_read_all := true; vr_strip_helpers := true |}.
+     vr_exo_deg2rad := true; vr_exo_read_all := true; vr_strip_helpers := true;
+     vr_scrip_pad := true |}.
 
 (* ------------------------------------------------------------------------------------- *)
 (* UGRID encoder                                                                           *)
@@ -555,14 +560,22 @@ Fixpoint c07_all_some {A} (l : list (option A)) : option (list A) :=
   | Some x :: l' => match c07_all_some l' with Some r => Some (x :: r) | None => None end
   end.
 
+(* proposed repair, encoder side: a face with fewer corners repeats its last corner
+   (n_per_face = number of non-fill entries; last = row[max(n_per_face - 1, 0)]) *)
+Definition c07_scrip_fill_row (r : row) : row :=
+  let k := length (filter (fun x => negb (is_fill x)) r) in
+  let last := nth (k - 1) r FILL in
+  map (fun x => if is_fill x then last else x) r.
+
 (* grid_corner_lon / grid_corner_lat as one table of (lon, lat) tokens *)
-Definition c07_encode_scrip (t : table) (lon lat : list Z) : option (list (list (Z * Z))) :=
+Definition c07_encode_scrip (pad : bool) (t : table) (lon lat : list Z) : option (list (list (Z * Z))) :=
   let n := Z.of_nat (length lon) in
   c07_all_some
     (map (fun r => c07_all_some
             (map (fun i => match c07_take n i with
                            | Some k => Some (nth k lon 0, nth k lat 0)
-                           | None => None end) r)) t).
+                           | None => None end) r))
+         (if pad then map c07_scrip_fill_row t else t)).
 
 (* np.unique(axis=0) on (lon, lat) rows = sort lexicographically + drop repeats *)
 Module C07PairOrder <: TotalLeBool.
@@ -598,15 +611,28 @@ Fixpoint c07_chunk (m : nat) (fuel : nat) (l : list Z) : list (list Z) :=
   | S f => firstn m l :: c07_chunk m f (skipn m l)
   end.
 
+(* proposed repair, reader side: entries equal to their left neighbour, from the right end of the
+   row as long as that holds, become -1 (flip / logical_and.accumulate / flip) *)
+Fixpoint c07_trail_go (l : list Z) : list Z :=
+  match l with
+  | [] => []
+  | x :: l' => match l' with
+               | y :: _ => if x =? y then (-1) :: c07_trail_go l' else l
+               | [] => l
+               end
+  end.
+Definition c07_trailing_pad (r : list Z) : list Z := rev (c07_trail_go (rev r)).
+
 (* _to_ugrid: areas_ok = in_ds["grid_area"].all() *)
-Definition c07_read_scrip (areas_ok : bool) (corners : list (list (Z * Z))) : option c07_decoded :=
+Definition c07_read_scrip (pad : bool) (areas_ok : bool) (corners : list (list (Z * Z))) : option c07_decoded :=
   if areas_ok then
     let flat := concat corners in
     let u := c07_unique flat in
     let inv := map (fun p => Z.of_nat (c07_index_of p u)) flat in
     let m := match corners with r :: _ => length r | [] => 0%nat end in
+    let rows := c07_chunk m (length corners) inv in
     Some {| dc_fnc := map (map (fun x => if x =? -1 then FILL else x))
-                          (c07_chunk m (length corners) inv);
+                          (if pad then map c07_trailing_pad rows else rows);
             dc_lon := map fst u; dc_lat := map snd u |}
   else None.
 
@@ -694,10 +720,10 @@ Definition c07_one (vr : c07_variant) (tmpl : c07_dict) (sp : c07_step) : c07_di
           rs_exodus := o; rs_scrip := None; rs_direct := dec; rs_file := dec |})
   | Some C07_SCRIP =>
       let o := match c07_fnc_table (sp_ds sp), c07_lonlat (sp_ds sp) with
-               | Some t, Some (lon, lat) => c07_encode_scrip t lon lat
+               | Some t, Some (lon, lat) => c07_encode_scrip (vr_scrip_pad vr) t lon lat
                | _, _ => None
                end in
-      let dec := match o with Some c => c07_read_scrip (sp_areas_ok sp) c | None => None end in
+      let dec := match o with Some c => c07_read_scrip (vr_scrip_pad vr) (sp_areas_ok sp) c | None => None end in
       (tmpl,
        {| rs_fmt := Some C07_SCRIP; rs_ugrid := None; rs_closed := true;
           rs_writable := match o with Some _ => true | None => false end;
